@@ -19,6 +19,7 @@ class Pinned:
     Exercises exactly the formula construction of the proxies."""
 
     symbolic = True
+    pinned = {}
 
     def __init__(self):
         self.subs = []
